@@ -242,6 +242,19 @@ Fixpoint watch (l : list ev) (last_force graceful : bool) : bool :=
   | _ :: r => watch r last_force graceful
   end.
 
+(* a fresh Init on the same store does not start the force-stopped pipeline *)
+Fixpoint after_boot (l : list ev) : option (list ev) :=
+  match l with [] => None | EBoot :: r => Some r | _ :: r => after_boot r end.
+Fixpoint boot_quiet (l : list ev) : bool :=
+  match l with
+  | [] => false
+  | EOpen _ _ :: _ => false
+  | EStatus StRunning _ :: _ | EStatus StRecovering _ :: _ => false
+  | EBooted StRunning :: _ | EBooted StRecovering :: _ => false
+  | EBooted _ :: _ => true
+  | _ :: r => boot_quiet r
+  end.
+
 Fixpoint last_status_force (l : list ev) (acc : bool) : bool :=
   match l with
   | [] => acc
@@ -287,6 +300,7 @@ Definition mon_c12 (hung : bool) (nsrc ndst : nat) (l : list ev) : bool :=
       | Some rest =>
           (* failed-by-force-stop, no automatic restart *)
           watch rest (last_status_force l false) (graceful t)
+          && match after_boot rest with Some r => boot_quiet r | None => false end
           && resume_ok nsrc ndst l
           && match after_restart l with Some (snap, _) => packs_below l snap | None => false end
       end
